@@ -4,6 +4,7 @@ package main
 // key type x algorithm with real keys; generated keys validate and verify only with their own public half.
 
 import (
+	"encoding/base64"
 	"context"
 	"crypto/ecdsa"
 	"crypto/ed25519"
@@ -373,6 +374,65 @@ func runC18(c *ctx) error {
 			c.res.Case(fmt.Sprintf("load/%v/%s", idxs, req), len(idxs) > 0)
 			c.res.Hist("load." + got[:min(len(got), 6)])
 		}
+	}
+	// key files whose selected key has every required member and an approved pair but broken key material (an empty
+	// or wrongly sized coordinate / modulus): jwk.Parse takes them, the structural validation does not — LoadKey fails
+	{
+		pubOf := func(k jwk.Key) map[string]any {
+			pk, _ := k.PublicKey()
+			b, _ := json.Marshal(pk)
+			var m map[string]any
+			json.Unmarshal(b, &m)
+			return m
+		}
+		rsaBase := bases[0]
+		var broken []map[string]any
+		if m := pubOf(edBase); m != nil {
+			m["alg"], m["kid"], m["x"] = "EdDSA", "bad-okp", ""
+			broken = append(broken, m)
+		}
+		if m := pubOf(ecBase); m != nil {
+			if x, _ := m["x"].(string); len(x) > 2 {
+				if raw, err := base64.RawURLEncoding.DecodeString(x); err == nil && len(raw) > 1 {
+					m["alg"], m["kid"], m["x"] = "ES512", "short-ec", base64.RawURLEncoding.EncodeToString(raw[1:])
+					broken = append(broken, m)
+				}
+			}
+		}
+		if m := pubOf(rsaBase); m != nil && m["kty"] == "RSA" {
+			m["alg"], m["kid"], m["n"] = "PS512", "empty-rsa", ""
+			broken = append(broken, m)
+		}
+		for bi, m := range broken {
+			for _, alone := range []bool{true, false} {
+				keys := []any{m}
+				if !alone {
+					good := pubOf(edBase)
+					good["alg"], good["kid"] = "EdDSA", "good"
+					keys = append(keys, good)
+				}
+				b, _ := json.Marshal(map[string]any{"keys": keys})
+				path := filepath.Join(dir, fmt.Sprintf("broken%d-%v.json", bi, alone))
+				os.WriteFile(path, b, 0o600)
+				kid, _ := m["kid"].(string)
+				var k jwk.Key
+				var lerr error
+				pn, msg := guard(func() { k, lerr = jwkutil.LoadKey(path, kid) })
+				c.res.OracleChecks++
+				desc := map[string]any{"set": string(b), "requested": kid}
+				switch {
+				case pn:
+					c.res.Fail(core.OracleFailure{What: "LoadKey panics on a key with broken key material", Input: desc, Got: msg})
+				case lerr == nil && k != nil && k.Validate() != nil:
+					c.res.Fail(core.OracleFailure{What: "LoadKey returned a structurally invalid key", Input: desc, Got: fmt.Sprint(k.Validate())})
+				case lerr == nil:
+					// (jwx found nothing wrong with this material: not a case of the rule)
+					c.res.Hist("load.broken-material-accepted-by-jwx")
+				}
+				c.res.Case(fmt.Sprintf("load-broken:%d:%v", bi, alone), true)
+			}
+		}
+		c.res.Hist("load.broken-key-material")
 	}
 	c.res.Rule = "exhaustive: every base key (RSA-2048, EC P-256/384/521, Ed25519, oct; private and public halves; four structurally invalid keys; private keys without their private member) x every signature and key-encryption algorithm jwa registers + unknown names + no algorithm, through jwkutil.Validate; generated key pairs for EdDSA/ES512/PS512 validate, sign a step, and verify only with their own public half (6x6 matrix); LoadKey over key sets of <=3 keys from a 9-key pool x requested ids through temp files. Distinct by (base key, algorithm) / (set, requested id)."
 	mm, total, err := core.RunSessions(c.driver, []*core.Session{sess}, 20, 0)
